@@ -155,7 +155,16 @@ fn gen(r: &mut Rng, tier: Tier, out: &mut Out) {
 		};
 		let ga = derive(r, &d, &pool, 1);
 		let mut gb = derive(r, &d, &pool, 2);
-		if kind == "ns-clash" { gb.ns[0] = if r.chance(1, 2) { "Official".to_owned() } else { gb.ns[1].clone() }; }
+		if kind == "ns-clash" {
+			match r.below(4) {
+				0 => { gb.ns[0] = "Official".to_owned(); }
+				1 => { gb.ns[0] = gb.ns[1].clone(); }
+				// A's first namespace is B's *second* one (an input that was not reordered)
+				2 => { gb.ns[1] = ga.ns[0].clone(); gb.ns[0] = "other".to_owned(); }
+				// B's first namespace is A's second one
+				_ => { gb.ns[0] = ga.ns[1].clone(); }
+			}
+		}
 		let (mut a, mut b) = (ga.to_sexp(), gb.to_sexp());
 		if kind == "desync" {
 			let hit = if r.chance(1, 2) { desync(r, &mut a) } else { desync(r, &mut b) };
@@ -164,7 +173,25 @@ fn gen(r: &mut Rng, tier: Tier, out: &mut Out) {
 		emit(out, &a, &b, i);
 	}
 	small_scope(out);
+	namespace_scope(out);
 	malformed(r, out);
+}
+
+/// Exhaustive over the four namespace names (a0 a1) x (b0 b1) drawn from three names, on a one-class mapping: the
+/// merge must succeed exactly when a0 = b0 (whatever else coincides), with header (a0 a1 b1).
+fn namespace_scope(out: &mut Out) {
+	let names = ["x", "y", "z"];
+	let mut i = 0;
+	for a0 in names { for a1 in names { for b0 in names { for b1 in names {
+		let side = |n0: &str, n1: &str, dst: &str| {
+			let class = fvh::mapgen::GClass { names: vec![Some("A".to_owned()), Some(dst.to_owned())], doc: None, fields: Vec::new(), methods: Vec::new() };
+			GMappings { ns: vec![n0.to_owned(), n1.to_owned()], doc: None, classes: vec![class] }.to_sexp()
+		};
+		let (a, b) = (side(a0, a1, "Aa"), side(b0, b1, "Ab"));
+		out.stats.hit(if a0 == b0 { "ns-scope:first-equal" } else if a0 == b1 { "ns-scope:first-is-other-second" } else { "ns-scope:first-differs" });
+		emit(out, &a, &b, i);
+		i += 1;
+	} } } }
 }
 
 /// Exhaustive small scope: one class, one field, one method, one parameter; every combination of side presence at every
